@@ -43,3 +43,21 @@ def optPolicyDefaultRule : String := "default"
 def optPolicyDirs : List String := ["policy.d"]
 def optRemoteContentType : String := "application/x-www-form-urlencoded"
 end OsloPolicy.Tables
+
+namespace OsloPolicy.Tables
+/-- Defaults of the public entry points that the models (and the harness, which calls them the way a service does) assume:
+an enforcer reads the configured files, overwrites on reload and falls back to a legacy `policy.json`; `enforce` /
+`authorize` return a denial unless asked to raise; `load_rules` does not force; `set_rules` overwrites; the checker
+evaluates as a non-admin against the caller's own ids. -/
+def apiDefaults : List (String × String) :=
+  [("Enforcer.policy_file", "None"), ("Enforcer.rules", "None"), ("Enforcer.default_rule", "None"),
+   ("Enforcer.use_conf", "True"), ("Enforcer.overwrite", "True"), ("Enforcer.fallback_to_json_file", "True"),
+   ("Enforcer.enforce.do_raise", "False"), ("Enforcer.enforce.exc", "None"),
+   ("Enforcer.authorize.do_raise", "False"), ("Enforcer.authorize.exc", "None"),
+   ("Enforcer.load_rules.force_reload", "False"),
+   ("Enforcer.set_rules.overwrite", "True"), ("Enforcer.set_rules.use_conf", "False"),
+   ("Enforcer.check_rules.raise_on_violation", "False"),
+   ("Rules.load.default_rule", "None"), ("Rules.from_dict.default_rule", "None"),
+   ("RuleDefault.deprecated_rule", "None"), ("RuleDefault.deprecated_for_removal", "False"), ("RuleDefault.scope_types", "None"),
+   ("shell.tool.is_admin", "False"), ("shell.tool.target_file", "None"), ("shell.tool.enforcer_config", "None")]
+end OsloPolicy.Tables
